@@ -80,6 +80,10 @@ type c02Run struct {
 	keySp    *partitioning.KeySpace
 	spurious []string
 	inflight []string // per sender: the item kind the harness handed to it ("ev" | "wm" | "bar <id>")
+	failNext bool     // the fake job fails the next acknowledgement
+	deploys  int
+	active   []bool // senders that have not sent SourceComplete in this deployment
+	gone     bool   // the operator stopped itself (no active source left)
 }
 
 func (r *c02Run) addLog(s string) {
@@ -171,7 +175,13 @@ func (h *c02Handler) ProcessEventBatch(ctx context.Context, req *handlerpb.Proce
 			evs = append(evs, fmt.Sprintf("t:%s:%d", lib.Hex(t.TimerExpired.Key), ts))
 		}
 	}
-	h.r.addLog("H(" + strings.Join(evs, ",") + "|" + given + ")")
+	wm := int64(0)
+	if req.Watermark != nil {
+		if ms := req.Watermark.AsTime().UnixMilli(); ms > 0 { // the registry starts at the zero time.Time
+			wm = ms
+		}
+	}
+	h.r.addLog(fmt.Sprintf("H(%d|%s|%s)", wm, strings.Join(evs, ","), given))
 	resp := &handlerpb.ProcessEventBatchResponse{}
 	for _, k := range order {
 		resp.KeyResults = append(resp.KeyResults, &handlerpb.KeyResult{
@@ -206,7 +216,7 @@ func (j *c02Job) OperatorCheckpointComplete(ctx context.Context, req *snapshotpb
 				out = "S(" + strconv.FormatUint(req.CheckpointId, 10) + "|unreadable " + strings.ReplaceAll(fmt.Sprint(p), " ", "_") + ")"
 			}
 		}()
-		fs, err := storage.NewFileSystemFromLocation(storage.Join(r.dir, c02OpID))
+		fs, err := storage.NewFileSystemFromLocation(storage.Join(r.deployDir(), c02OpID))
 		if err != nil {
 			panic(err)
 		}
@@ -256,11 +266,20 @@ func (j *c02Job) OperatorCheckpointComplete(ctx context.Context, req *snapshotpb
 		return fmt.Sprintf("S(%d|%s|%s)", req.CheckpointId, c02KV(states), strings.Join(parts, ","))
 	}()
 	r.mu.Lock()
-	r.log = append(r.log, desc, fmt.Sprintf("ack:%d", req.CheckpointId))
+	defer r.mu.Unlock()
 	r.snaps++
-	r.mu.Unlock()
+	if r.failNext {
+		r.failNext = false
+		r.log = append(r.log, desc, fmt.Sprintf("ackfail:%d", req.CheckpointId))
+		return errC02JobUnreachable
+	}
+	r.log = append(r.log, desc, fmt.Sprintf("ack:%d", req.CheckpointId))
 	return nil
 }
+
+var errC02JobUnreachable = fmt.Errorf("verif: job unreachable")
+
+func (r *c02Run) deployDir() string { return fmt.Sprintf("%s/dep%d", r.dir, r.deploys) }
 
 func c02SenderIdx(payload []any) int {
 	if len(payload) == 0 {
@@ -309,6 +328,7 @@ func c02Impl(c lib.Case) []string {
 		r.done = append(r.done, make(chan error, 1))
 		r.status[i] = '-'
 		r.inflight = append(r.inflight, "")
+		r.active = append(r.active, true)
 	}
 	timer := &c02Timer{}
 	op := operator.NewOperator(operator.NewOperatorParams{
@@ -324,12 +344,15 @@ func c02Impl(c lib.Case) []string {
 		close(r.quit)
 		cancel()
 	}()
-	if err := op.HandleDeploy(ctx, &workerpb.DeployOperatorRequest{
-		Operators:       []*jobpb.NodeIdentity{{Id: c02OpID, Host: "h"}},
-		SourceRunnerIds: srIDs,
-		KeyGroupCount:   256,
-		StorageLocation: dir,
-	}, &embedded.RecordingSink{}); err != nil {
+	deploy := func() error {
+		return op.HandleDeploy(ctx, &workerpb.DeployOperatorRequest{
+			Operators:       []*jobpb.NodeIdentity{{Id: c02OpID, Host: "h"}},
+			SourceRunnerIds: srIDs,
+			KeyGroupCount:   256,
+			StorageLocation: r.deployDir(),
+		}, &embedded.RecordingSink{})
+	}
+	if err := deploy(); err != nil {
 		return []string{"deploy " + err.Error()}
 	}
 	syncConsumer := func() bool {
@@ -339,6 +362,16 @@ func c02Impl(c lib.Case) []string {
 		case <-ch:
 			return true
 		case <-time.After(c02Wait):
+			return false
+		}
+	}
+	syncConsumerFor := func(d time.Duration) bool {
+		ch := make(chan struct{})
+		go func() { op.VerifSync(); close(ch) }()
+		select {
+		case <-ch:
+			return true
+		case <-time.After(d):
 			return false
 		}
 	}
@@ -431,6 +464,16 @@ func c02Impl(c lib.Case) []string {
 		}
 		select {
 		case h := <-r.hookCh[i]:
+			if h == "parked" && op.VerifCheckpointReleased() {
+				// the record's channel is already closed: the wait returns at once and the call reaches the gate
+				select {
+				case h = <-r.hookCh[i]:
+				case err := <-r.done[i]:
+					return "returned:" + c02Err(err)
+				case <-time.After(c02Wait):
+					return "timeout"
+				}
+			}
 			if h == "parked" {
 				r.status[i] = 'k'
 				return "parked"
@@ -446,6 +489,20 @@ func c02Impl(c lib.Case) []string {
 	out := make([]string, 0, len(c.Ops))
 	for _, line := range c.Ops {
 		f := strings.Fields(line)
+		if r.gone {
+			// the operator stopped itself; only ops that do not need the consumer still answer
+			switch {
+			case len(f) >= 1 && f[0] == "go":
+				out = append(out, "noop")
+			case len(f) == 1 && (f[0] == "tick" || f[0] == "stale"):
+				out = append(out, "none")
+			case len(f) == 1 && f[0] == "state":
+				out = append(out, "gone")
+			default:
+				out = append(out, "gone")
+			}
+			continue
+		}
 		drain()
 		res := "bad-op"
 		switch {
@@ -466,6 +523,8 @@ func c02Impl(c lib.Case) []string {
 			case f[2] == "wm" && len(f) == 4:
 				ts, _ := strconv.Atoi(f[3])
 				res = send(i, &workerpb.Event{Event: &workerpb.Event_Watermark{Watermark: &workerpb.Watermark{Timestamp: timestamppb.New(time.UnixMilli(int64(ts)))}}})
+			case f[2] == "done" && len(f) == 3:
+				res = send(i, &workerpb.Event{Event: &workerpb.Event_SourceComplete{SourceComplete: &workerpb.SourceCompleteEvent{}}})
 			case f[2] == "bar" && len(f) == 4:
 				id, _ := strconv.ParseUint(f[3], 10, 64)
 				res = send(i, &workerpb.Event{Event: &workerpb.Event_CheckpointBarrier{CheckpointBarrier: &workerpb.CheckpointBarrier{CheckpointId: id}}})
@@ -504,7 +563,9 @@ func c02Impl(c lib.Case) []string {
 			r.status[i] = '-'
 			parts := []string{"ok"}
 			log := r.takeLog()
-			if herr != nil {
+			if herr != nil && strings.Contains(herr.Error(), errC02JobUnreachable.Error()) && strings.HasPrefix(r.inflight[i], "bar ") {
+				parts = append(parts, "reg:"+strings.TrimPrefix(r.inflight[i], "bar ")) // the error is the failed ack, reported in the log
+			} else if herr != nil {
 				if m := c02Mismatch.FindStringSubmatch(herr.Error()); m != nil {
 					parts = append(parts, "reject:"+m[2]+":"+m[1])
 				} else {
@@ -514,6 +575,18 @@ func c02Impl(c lib.Case) []string {
 				parts = append(parts, "reg:"+strings.TrimPrefix(r.inflight[i], "bar "))
 			}
 			parts = append(parts, log...)
+			if r.inflight[i] == "done" && herr == nil {
+				parts = append(parts, "completed")
+				r.active[i] = false
+				any := false
+				for _, a := range r.active {
+					any = any || a
+				}
+				if !any && !syncConsumerFor(200*time.Millisecond) {
+					parts = append(parts, "stopped") // no active source left: the consumer is gone
+					r.gone = true
+				}
+			}
 			r.mu.Lock()
 			completed := r.snaps > snapsBefore
 			r.mu.Unlock()
@@ -567,6 +640,44 @@ func c02Impl(c lib.Case) []string {
 			} else {
 				res = strings.Join(log, " ")
 			}
+		case len(f) == 1 && f[0] == "failnext":
+			r.mu.Lock()
+			r.failNext = true
+			r.mu.Unlock()
+			res = "armed"
+		case len(f) == 1 && f[0] == "redeploy":
+			r.mu.Lock()
+			r.deploys++
+			r.mu.Unlock()
+			if err := deploy(); err != nil {
+				res = "deploy-error:" + c02Err(err)
+				break
+			}
+			var ab []string
+			for j := 0; j < k; j++ {
+				r.active[j] = true
+				if r.status[j] != 'k' {
+					continue
+				}
+				select { // a sender parked on the abandoned checkpoint is turned away with an error
+				case err := <-r.done[j]:
+					if err != nil {
+						r.status[j] = '-'
+						ab = append(ab, strconv.Itoa(j))
+					} else {
+						r.status[j] = '-'
+						ab = append(ab, strconv.Itoa(j)+"!accepted")
+					}
+				case ev := <-r.hookCh[j]:
+					if ev == "gate" {
+						r.status[j] = 'p'
+						ab = append(ab, strconv.Itoa(j)+"!released")
+					}
+				case <-time.After(c02Wait):
+					ab = append(ab, strconv.Itoa(j)+"!stuck")
+				}
+			}
+			res = "redeployed:" + strings.Join(ab, ".")
 		case len(f) == 1 && f[0] == "state":
 			time.Sleep(c02Settle)
 			drain()
@@ -586,10 +697,10 @@ func c02Impl(c lib.Case) []string {
 			}
 			res = "ck=" + ck + " slots=" + string(r.status)
 		}
-		if len(f) >= 4 && f[0] == "send" && (res == "passed" || res == "parked") {
+		if len(f) >= 3 && f[0] == "send" && (res == "passed" || res == "parked") {
 			i, _ := strconv.Atoi(f[1])
 			r.inflight[i] = f[2]
-			if f[2] == "bar" {
+			if f[2] == "bar" && len(f) >= 4 {
 				id, _ := strconv.ParseUint(f[3], 10, 64)
 				r.inflight[i] = "bar " + strconv.FormatUint(id, 10)
 			}
@@ -652,12 +763,26 @@ type c02Sim struct {
 	ckID    int
 	missing map[int]bool
 	inCk    bool
+	fail    bool // next ack fails
+	stale   bool // completed record left in place
+	active  map[int]bool
+	gone    bool
+}
+
+func (s *c02Sim) redeploy() {
+	s.inCk, s.stale = false, false
+	for j := 0; j < s.k; j++ {
+		if s.status[j] == 'k' {
+			s.status[j] = '-'
+		}
+	}
+	s.active = nil
 }
 
 func (s *c02Sim) send(i int) {
 	s.item[i] = s.scripts[i][s.pos[i]]
 	s.pos[i]++
-	if s.inCk && !s.missing[i] {
+	if s.inCk && !s.missing[i] && !s.stale {
 		s.status[i] = 'k'
 	} else {
 		s.status[i] = 'p'
@@ -667,6 +792,17 @@ func (s *c02Sim) send(i int) {
 func (s *c02Sim) run(i int) {
 	it := strings.Fields(s.item[i])
 	s.status[i] = '-'
+	if it[0] == "done" {
+		if s.active == nil {
+			s.active = map[int]bool{}
+			for j := 0; j < s.k; j++ {
+				s.active[j] = true
+			}
+		}
+		delete(s.active, i)
+		s.gone = len(s.active) == 0
+		return
+	}
 	if it[0] != "bar" {
 		return
 	}
@@ -682,7 +818,8 @@ func (s *c02Sim) run(i int) {
 	}
 	delete(s.missing, i)
 	if len(s.missing) == 0 {
-		s.inCk = false
+		s.inCk, s.stale = s.fail, s.fail
+		s.fail = false
 		for j := 0; j < s.k; j++ {
 			if s.status[j] == 'k' {
 				s.status[j] = 'p'
@@ -739,6 +876,9 @@ func c02Scripts(r *lib.Rng, k int, tier string) [][]string {
 				s = append(s, fmt.Sprintf("bar %d", id))
 			}
 		}
+		if k > 1 && i < k-1 && r.Chance(1, 10) {
+			s = append(s, "done") // bounded source finished (never all senders: the operator would stop itself)
+		}
 		scripts[i] = s
 	}
 	return scripts
@@ -755,7 +895,8 @@ func c02Schedule(r *lib.Rng, k int, scripts [][]string) []string {
 	for i := range weights {
 		weights[i] = 1 + r.Intn(4)*r.Intn(3)
 	}
-	for steps := 0; steps < 400; steps++ {
+	withFaults := r.Chance(1, 4) // failed acks and redeploys in a quarter of the cases
+	for steps := 0; steps < 400 && !sim.gone; steps++ {
 		type cand struct {
 			kind string
 			i    int
@@ -774,6 +915,9 @@ func c02Schedule(r *lib.Rng, k int, scripts [][]string) []string {
 			break
 		}
 		cs = append(cs, cand{"tick", 0, 1}, cand{"noise", 0, 1})
+		if withFaults {
+			cs = append(cs, cand{"fault", 0, 1})
+		}
 		total := 0
 		for _, c := range cs {
 			total += c.w
@@ -799,6 +943,14 @@ func c02Schedule(r *lib.Rng, k int, scripts [][]string) []string {
 				ops = append(ops, "stale")
 			} else {
 				ops = append(ops, "tick")
+			}
+		case "fault":
+			if sim.stale || r.Chance(1, 2) {
+				ops = append(ops, "redeploy")
+				sim.redeploy()
+			} else {
+				ops = append(ops, "failnext")
+				sim.fail = true
 			}
 		case "noise":
 			switch r.Intn(3) {
@@ -922,6 +1074,16 @@ func propC02() *lib.Prop {
 				c02Case(2, 4, "send 0 ev 61 1 0", "send 1 ev 62 2 0", "go 0", "send 0 bar 1", "go 0", "go 1", "send 1 bar 1", "send 0 ev 61 3 0", "go 1", "go 0", "tick", "state"),
 				// consecutive barriers and an id mismatch
 				c02Case(2, 2, "send 0 bar 1", "go 0", "send 0 bar 2", "send 1 bar 2", "go 1", "send 1 bar 1", "go 1", "go 0", "send 1 bar 2", "go 1", "state"),
+				// D43: a sender parked behind its barrier is turned away by a redeploy; its event never reaches the new deployment
+				c02Case(2, 1, "send 0 ev 61 1 0", "go 0", "send 0 bar 1", "go 0", "send 0 ev 61 9 0", "state", "redeploy", "go 0", "state",
+					"send 0 ev 61 2 0", "go 0", "send 0 bar 2", "go 0", "send 1 bar 2", "go 1", "state"),
+				// failed ack: the completed record stays, other ids are rejected, a repeated barrier must not panic (D43), redeploy recovers
+				c02Case(1, 2, "send 0 ev 61 1 0", "go 0", "failnext", "send 0 bar 1", "go 0", "state", "send 0 ev 61 2 0", "go 0", "send 0 bar 2", "go 0",
+					"send 0 bar 1", "go 0", "state", "failnext", "send 0 bar 3", "go 0", "state", "redeploy", "state", "send 0 bar 4", "go 0", "tick", "state"),
+				// events waiting in the batcher and a call past alignment survive a redeploy (as in the code)
+				c02Case(2, 3, "send 0 ev 61 1 0", "go 0", "send 1 ev 62 2 0", "redeploy", "go 1", "send 0 bar 1", "go 0", "send 1 bar 1", "go 1", "state"),
+				// SourceComplete flushes; the last one stops the operator
+				c02Case(2, 3, "send 0 ev 61 1 0", "go 0", "send 0 done", "go 0", "send 1 bar 1", "go 1", "state", "send 1 done", "go 1", "send 0 ev 61 2 0", "go 0", "state"),
 				// timers: a post-barrier watermark must not fire timers into checkpoint 1
 				c02Case(2, 3, "send 0 ev 61 1 5", "go 0", "tick", "send 0 wm 9", "go 0", "send 1 bar 1", "go 1", "send 1 wm 9", "state", "send 0 bar 1", "go 0", "go 1", "tick", "state"),
 			}
